@@ -1511,6 +1511,8 @@ impl<'a> CompilerState<'a> {
                                             let mut v = Vec::new();
 
                                             for pxx in px.into_inner() {
+                                                // (an error in an element is located at the element)
+                                                let start = pxx.as_span().start();
                                                 match pxx.as_rule() {
                                                     Rule::calc_expr => v.push(VariableValue::Int(
                                                         self.parse_calc(pxx.into_inner())?,
@@ -1595,6 +1597,8 @@ impl<'a> CompilerState<'a> {
                                         } else {
                                             let mut v = Vec::new();
                                             for pxx in px.into_inner() {
+                                                // (an error in an element is located at the element)
+                                                let start = pxx.as_span().start();
                                                 match pxx.as_rule() {
                                                     Rule::calc_expr => v.push((
                                                         "__address__".into(),
